@@ -18,6 +18,8 @@ def check(ctx):
     # 'the pattern listed first' = first position in terminal_ids, built in pattern order
     from .pC01 import priority_rules
     priority_rules(ctx)
+    # the lookahead that gates (and lengthens) a candidate is the one configured on its own pattern, polarity included
+    kernel.lookahead_wiring(ctx, ("C04.f",))
     kernel.token_type_uniqueness(ctx, "C01.k", "priority-key-is-the-token-type-but-token-types-may-repeat", "ties between candidates are resolved by the first position of their token types, not of the patterns")
     from .common import cache_foundation, language_foundation
     language_foundation(ctx)
